@@ -632,10 +632,114 @@ pub fn check(ctx: &mut Ctx) {
 		"what a caller sees after the client abandons the connection is C09's business; here only: no payload".into(),
 	];
 	ctx.run_sub(&Routing);
+	ctx.run_sub(&AcrossThreads);
 }
 
 pub fn replay(file: &serde_json::Value) -> Option<i32> {
-	replay_with(&Routing, file, "C03")
+	replay_with(&Routing, file, "C03").or_else(|| replay_with(&AcrossThreads, file, "C03"))
+}
+
+// ---------------------------------------------------------------------------------------------
+// one client shared by callers on several threads
+// ---------------------------------------------------------------------------------------------
+
+#[derive(Clone, Debug, Serialize, Deserialize)]
+pub struct ThreadsCase {
+	pub threads: u8,
+	pub per_thread: u16,
+	pub id_kind: IdK,
+	/// false: the ids are drawn from the public `RequestIdManager` by plain OS threads;
+	/// true: calls are made through one client on a multi-thread runtime against a transport that answers every call
+	/// with its own method name
+	pub through_client: bool,
+}
+
+pub struct AcrossThreads;
+
+impl SubCheck for AcrossThreads {
+	type Case = ThreadsCase;
+	fn name(&self) -> &'static str {
+		"callers-on-several-threads"
+	}
+	fn cases(&self, tier: Tier) -> u32 {
+		tier.pick(160, 4_000)
+	}
+	fn shards(&self, _tier: Tier) -> u32 {
+		// every case brings its own threads
+		2
+	}
+	fn strategy(&self, _tier: Tier) -> BoxedStrategy<ThreadsCase> {
+		(2u8..9, 500u16..20_000, prop_oneof![Just(IdK::Number), Just(IdK::String)], any::<bool>())
+			.prop_map(|(threads, per_thread, id_kind, through_client)| ThreadsCase { threads, per_thread: if through_client { per_thread % 400 + 50 } else { per_thread }, id_kind, through_client })
+			.boxed()
+	}
+	fn run(&self, case: &ThreadsCase, obs: &mut Obs) {
+		use jsonrpsee_core::client::{IdKind, RequestIdManager};
+		let (threads, per) = (case.threads.max(2) as usize, case.per_thread.max(1) as usize);
+		obs.nontrivial();
+		if !case.through_client {
+			obs.class("threads:id-manager");
+			let m = Arc::new(RequestIdManager::new(match case.id_kind {
+				IdK::Number => IdKind::Number,
+				IdK::String => IdKind::String,
+			}));
+			let barrier = Arc::new(std::sync::Barrier::new(threads));
+			let drawn: Vec<Vec<String>> = std::thread::scope(|sc| {
+				let hs: Vec<_> = (0..threads)
+					.map(|_| {
+						let (m, barrier) = (m.clone(), barrier.clone());
+						sc.spawn(move || {
+							barrier.wait();
+							(0..per).map(|_| serde_json::to_string(&m.next_request_id()).unwrap()).collect::<Vec<_>>()
+						})
+					})
+					.collect();
+				hs.into_iter().map(|h| h.join().unwrap_or_default()).collect()
+			});
+			let mut all: Vec<&String> = drawn.iter().flatten().collect();
+			let n = all.len();
+			all.sort();
+			all.dedup();
+			obs.check(n == threads * per && all.len() == n, "c03/request-ids-not-distinct", || format!("{} ids drawn on {threads} threads, {} distinct; case={case:?}", n, all.len()));
+			return;
+		}
+		obs.class("threads:calls-through-one-client");
+		let rt = tokio::runtime::Builder::new_multi_thread().worker_threads(threads.min(6)).enable_time().build().expect("runtime");
+		let fails: Vec<String> = rt.block_on(async {
+			let mc = MockClient::new(ClientCfg { id_kind: case.id_kind, max_concurrent_requests: 64, ..ClientCfg::default() });
+			*mc.shared.auto_answer.lock() = Some(mc.to_client.clone());
+			let mut hs = vec![];
+			for t in 0..threads {
+				let c = mc.client.clone();
+				hs.push(tokio::spawn(async move {
+					let mut bad = vec![];
+					for i in 0..per {
+						let name = format!("m_{t}_{i}");
+						match c.request::<String, _>(&name, rpc_params![]).await {
+							Ok(r) if r == name => {}
+							other => {
+								bad.push(format!("{name} => {other:?}"));
+								if bad.len() > 3 {
+									break;
+								}
+							}
+						}
+					}
+					bad
+				}));
+			}
+			let mut fails = vec![];
+			for h in hs {
+				match h.await {
+					Ok(b) => fails.extend(b),
+					Err(e) => fails.push(format!("caller task: {e}")),
+				}
+			}
+			fails
+		});
+		rt.shutdown_background();
+		obs.check(fails.is_empty(), "c03/call-across-threads-not-answered-with-its-own-response", || format!("{:?}; case={case:?}", fails.iter().take(4).collect::<Vec<_>>()));
+	}
 }
 
 #[allow(dead_code)]
